@@ -468,12 +468,14 @@ Qed.
 
 Lemma P_number0_c ty lit gs X K l :
   relex_word ty lit = true -> (ty = T_INT \/ ty = T_FLOAT) -> (ty = T_FLOAT -> go_float_ok lit = true) ->
-  tsafe lit -> kont (rta X K) -> trv gs -> l_rest l = gs ++ rta (lit ++ X) K ->
+  tsafe lit -> is_ident_char (hd 0%N (rta X K)) = false ->
+  (hd 0%N (rta X K) = 46%N -> ty <> T_INT \/ forallb isDigit lit = false) ->
+  trv gs -> l_rest l = gs ++ rta (lit ++ X) K ->
   exists t l', lexes l [t] l' /\ t_type t = ty /\ t_lit t = lit /\ t_nl t = has_lf gs /\
                l_rest l' = rta X K /\ t_comments t = tcm gs.
 Proof.
-  intros H Hty Hfl Ts KK G Hl.
-  destruct (lex1_number _ _ (rta X K) H Hty Hfl KK) as (HD & L1 & _).
+  intros H Hty Hfl Ts KK K46 G Hl.
+  destruct (lex1_number _ _ (rta X K) H Hty Hfl KK K46) as (HD & L1 & _).
   destruct (digit_facts _ HD) as (F1 & F2 & F3 & _).
   assert (Ne : lit <> []) by (intro E; rewrite E in HD; discriminate HD).
   assert (Nt : ty <> T_EOF) by (destruct Hty; subst ty; discriminate).
@@ -1284,8 +1286,8 @@ Proof.
   repeat split; intros; subst; try assumption; intro; subst; apply NF; auto.
 Qed.
 
-Lemma kont_gap g body X K c : wgap g -> hd 0%N body = c -> sst c ->
-  (g = [] -> is_ident_char c = false /\ c <> 46%N) -> kont (rta (g ++ body ++ X) K).
+Lemma kont_gap {ge} g body X K c : wgap g -> hd 0%N body = c -> sst c ->
+  (g = [] -> is_ident_char c = false /\ c <> 46%N) -> kont ge (rta (g ++ body ++ X) K).
 Proof.
   intros Gg Hd [Os1 Os2] NF.
   destruct (gap_split g body X K c Gg Hd Os1 Os2) as (g' & E & _ & _ & E0 & E1 & Hc).
@@ -1308,7 +1310,7 @@ Qed.
 
 (* lexing the (trimmed) text of an expression behind any trivia *)
 Definition LxE (b : str) (lv : Z) (g0 g body : str) (e : expr) (fty : Z) : Prop :=
-  forall K, kont K -> forall gs l, trv gs -> l_rest l = gs ++ rta body K ->
+  forall K, kont e K -> forall gs l, trv gs -> l_rest l = gs ++ rta body K ->
     exists e' ts l', lexes l ts l' /\ l_rest l' = K /\
       (forall R, m_expr e' (ts ++ R) = Some R) /\ shape_expr e' = shape_expr e /\
       exists t0 ts0, ts = t0 :: ts0 /\ t_type t0 = fty /\ t_nl t0 = has_lf gs /\ XE b lv g0 g body e' e t0 (tcm gs).
@@ -1322,7 +1324,7 @@ Definition PJ (ops : list wop) (e : expr) (c : N) (fty : Z) (lead : list str) : 
 
 (* the same behind a gap of the writer, followed by more text *)
 Lemma LxE_gap {b lv g0 gE} g body e fty c X K l : LxE b lv g0 gE body e fty -> wgap g -> hd 0%N body = c -> ost c ->
-  kont (rta X K) -> l_rest l = rta (g ++ body ++ X) K ->
+  kont e (rta X K) -> l_rest l = rta (g ++ body ++ X) K ->
   exists e' ts l', lexes l ts l' /\ l_rest l' = rta X K /\
     (forall R, m_expr e' (ts ++ R) = Some R) /\ shape_expr e' = shape_expr e /\
     exists t0 ts0, ts = t0 :: ts0 /\ t_type t0 = fty /\ (has_lf g = false -> t_nl t0 = false) /\ XE b lv g0 gE body e' e t0 (tcm g).
@@ -1361,7 +1363,7 @@ Lemma notin_sp : ~ In LF [32%N]. Proof. intros [H|[]]. discriminate H. Qed.
 (* a single token: [WComments cs; WMapping p; ... w] *)
 Lemma PJ_atom ops cs w ty lit e c (mk : token -> expr) :
   (forall b pd lv mp, prun (ps b pd lv mp) ops = ps (b ++ G pd lv cs ++ w) [] lv mp) -> NLF cs ->
-  (forall K, kont K -> forall gs l, trv gs -> l_rest l = gs ++ rta w K ->
+  (forall K, kont e K -> forall gs l, trv gs -> l_rest l = gs ++ rta w K ->
      exists t l', lexes l [t] l' /\ t_type t = ty /\ t_lit t = lit /\ t_nl t = has_lf gs /\ l_rest l' = K /\
        t_comments t = tcm gs) ->
   hd 0%N w = c -> c <> 43%N -> c <> 45%N ->
@@ -1488,15 +1490,17 @@ Lemma P_int t cs : (t_type t =? T_INT) && relex_word T_INT (t_lit t) && go_int_o
   blank_eol_free (t_lit t) = true -> t_comments t = cs -> NLF cs -> PE (EInt t) cs.
 Proof.
   intros H Bf Ecs Hcs. apply andb_true_iff in H as [H H3]. apply andb_true_iff in H as [H1 H2]. apply Z.eqb_eq in H1.
-  destruct (lex1_number _ _ [] H2 (or_introl eq_refl) ltac:(discriminate) kont_nil) as (HD & _).
+  destruct (lex1_number _ _ [] H2 (or_introl eq_refl) ltac:(discriminate) eq_refl ltac:(intro Q; discriminate Q)) as (HD & _).
   destruct (digit_ostart _ HD) as (Os & C1 & C2).
   exists (hd 0%N (t_lit t)). split; [exact (digit_ost _ HD)|].
   cbn [write_expr first_type]. rewrite H1.
   apply (PJ_atom _ cs (t_lit t) T_INT (t_lit t) _ _ (fun t' => EInt t')).
   - intros b pd lv mp. rewrite Ecs. psimp. rewrite <- app_assoc. reflexivity.
   - exact Hcs.
-  - intros K HK gs l Tg Hl. rewrite <- (app_nil_r (t_lit t)) in Hl.
-    exact (P_number0_c _ _ gs [] K l H2 (or_introl eq_refl) ltac:(discriminate) (conj Bf (go_int_last _ H3)) HK Tg Hl).
+  - intros K [HK1 HK2] gs l Tg Hl. rewrite <- (app_nil_r (t_lit t)) in Hl.
+    assert (K46 : hd 0%N (rta [] K) = 46%N -> T_INT <> T_INT \/ forallb isDigit (t_lit t) = false).
+    { intro Q. right. apply dot_ok_int. exact (HK2 Q). }
+    exact (P_number0_c _ _ gs [] K l H2 (or_introl eq_refl) ltac:(discriminate) (conj Bf (go_int_last _ H3)) HK1 K46 Tg Hl).
   - reflexivity.
   - exact C1.
   - exact C2.
@@ -1511,16 +1515,18 @@ Lemma P_float t cs : (t_type t =? T_FLOAT) && relex_word T_FLOAT (t_lit t) && go
   blank_eol_free (t_lit t) = true -> t_comments t = cs -> NLF cs -> PE (EFloat t) cs.
 Proof.
   intros H Bf Ecs Hcs. apply andb_true_iff in H as [H H3]. apply andb_true_iff in H as [H1 H2]. apply Z.eqb_eq in H1.
-  destruct (lex1_number _ _ [] H2 (or_intror eq_refl) (fun _ => H3) kont_nil) as (HD & _).
+  destruct (lex1_number _ _ [] H2 (or_intror eq_refl) (fun _ => H3) eq_refl ltac:(intro Q; discriminate Q)) as (HD & _).
   destruct (digit_ostart _ HD) as (Os & C1 & C2).
   exists (hd 0%N (t_lit t)). split; [exact (digit_ost _ HD)|].
   cbn [write_expr first_type]. rewrite H1.
   apply (PJ_atom _ cs (t_lit t) T_FLOAT (t_lit t) _ _ (fun t' => EFloat t')).
   - intros b pd lv mp. rewrite Ecs. psimp. rewrite <- app_assoc. reflexivity.
   - exact Hcs.
-  - intros K HK gs l Tg Hl. rewrite <- (app_nil_r (t_lit t)) in Hl.
+  - intros K [HK1 _] gs l Tg Hl. rewrite <- (app_nil_r (t_lit t)) in Hl.
+    assert (K46 : hd 0%N (rta [] K) = 46%N -> T_FLOAT <> T_INT \/ forallb isDigit (t_lit t) = false).
+    { intros _. left. discriminate. }
     exact (P_number0_c _ _ gs [] K l H2 (or_intror eq_refl) (fun _ => H3)
-             (conj Bf (digit_not_blank _ (go_float_last _ H3))) HK Tg Hl).
+             (conj Bf (PrettyJ.float_last_nb _ H3)) HK1 K46 Tg Hl).
   - reflexivity.
   - exact C1.
   - exact C2.
@@ -1636,8 +1642,8 @@ Lemma hd_app_ost (body rest : str) c : ost c -> hd 0%N body = c -> hd 0%N (body 
 Proof. intros Os Hd. rewrite (hd_app_ne _ _ (ostart_ne _ _ (ost_ostart' _ Os) Hd)). exact Hd. Qed.
 
 (* text that starts with an operator behind a non-empty gap *)
-Lemma kont_gap_ne g s X K : wgap g -> g <> [] -> s <> [] -> isWhitespace (hd 0%N s) = false -> hd 0%N s <> 0%N ->
-  kont (rta (g ++ s ++ X) K).
+Lemma kont_gap_ne {ge} g s X K : wgap g -> g <> [] -> s <> [] -> isWhitespace (hd 0%N s) = false -> hd 0%N s <> 0%N ->
+  kont ge (rta (g ++ s ++ X) K).
 Proof.
   intros Gg Ne Ns W Z.
   destruct (gap_split g s X K _ Gg eq_refl W Z) as (g' & E & _ & _ & _ & E1 & _).
@@ -1651,6 +1657,13 @@ Proof.
   | |- (if ty =? ?b then _ else _) = _ -> _ =>
       destruct (Z.eqb_spec ty b) as [->|_]; [intro H; inversion H; split; [reflexivity|discriminate]|]
   end; discriminate.
+Qed.
+
+Lemma is_decimal_int_shape a b : shape_expr a = shape_expr b -> is_decimal_int a = is_decimal_int b.
+Proof.
+  intro H. destruct a, b; try discriminate H; try reflexivity.
+  unfold shape_expr in H. cbn [tmap_expr] in H. injection H as _ H. cbn [is_decimal_int].
+  rewrite H. reflexivity.
 Qed.
 
 Lemma prec_opt_shape a b : shape_expr a = shape_expr b -> prec_opt a = prec_opt b.
@@ -1674,9 +1687,10 @@ Lemma PJ_infix opsL gL cL tyL leadL mid cs s ty opsR gR cR tyR leadR t (mk : tok
   (forall t' eL eR, t_type t' = ty -> shape_expr eL = shape_expr gL -> shape_expr eR = shape_expr gR ->
      write_expr (mk t' eL eR) = write_expr eL ++ midf t' ++ write_expr eR) ->
   (forall t' B lv mp, prun (ps B [] lv mp) (midf t') = ps (B ++ G [32%N] lv (t_comments t') ++ s) [32%N] lv mp) ->
+  dot_ok (mk t gL gR) = false ->
   PJ (opsL ++ mid ++ opsR) (mk t gL gR) cL tyL leadL.
 Proof.
-  intros JL JR OsL OsR Wm Hcs T Ty Li M S F1 B1 HO HM b pd lv mp Hlv Hpd.
+  intros JL JR OsL OsR Wm Hcs T Ty Li M S F1 B1 HO HM DK b pd lv mp Hlv Hpd.
   destruct (JL b pd lv mp Hlv Hpd) as (g & body & W & Gg & Gn & Gl & Hd & Lx).
   set (gm := G [32%N] lv cs).
   assert (Ggm : wgap gm) by (apply G_gap; [exact indent_blank|exact pend_ok_sp|exact Hcs]).
@@ -1695,7 +1709,7 @@ Proof.
     intro E. rewrite <- app_assoc. exact (Gn2 E). }
   destruct (P_punct_c ty s gm (g2 ++ body2) K l1 T PB Ggm R1) as (t' & l2 & L2 & Ty' & Li' & _ & R2 & Cm').
   rewrite <- (app_nil_r body2) in R2.
-  destruct (LxE_gap g2 body2 gR tyR cR [] K l2 Lx2 Gg2 Hd2 OsR HK R2)
+  destruct (LxE_gap g2 body2 gR tyR cR [] K l2 Lx2 Gg2 Hd2 OsR (kont_sub _ _ _ HK DK) R2)
     as (eR & tsR & l3 & L3 & R3 & MR & SR & tR0 & tsR0 & _ & _ & _ & XR).
   exists (mk t' eL eR), (tsL ++ [t'] ++ tsR), l3.
   split; [eapply lexes_app; [exact L1|eapply lexes_app; eassumption]|]. split; [exact R3|].
@@ -1748,6 +1762,7 @@ Proof.
     rewrite (prec_opt_shape _ _ SL'), (prec_opt_shape _ _ SR'), Pl, Pr, Ty', (binop_prec _ _ Hb), Cl, Cr.
     cbn [app]. rewrite !app_nil_r. reflexivity.
   - intros t' B lv0 mp0. psimp. rewrite <- ?app_assoc. reflexivity.
+  - reflexivity.
 Qed.
 
 Lemma P_assign t l v ll lv0 : t_type t = T_ASSIGN -> t_lit t = [61%N] -> NLF (t_comments t) ->
@@ -1781,6 +1796,7 @@ Proof.
   - reflexivity.
   - intros t' eL eR Ty' SL' SR'. cbn [write_expr]. rewrite app_nil_r. reflexivity.
   - intros t' B lv2 mp0. psimp. rewrite <- ?app_assoc. reflexivity.
+  - reflexivity.
 Qed.
 
 Lemma P_compound t l op v ty ll lv0 :
@@ -1816,10 +1832,11 @@ Proof.
   - reflexivity.
   - intros t' eL eR Ty' SL' SR'. cbn [write_expr]. rewrite app_nil_r. reflexivity.
   - intros t' B lv2 mp0. psimp. rewrite <- ?app_assoc. reflexivity.
+  - reflexivity.
 Qed.
 
-Lemma kont_gap_char g c X K : wgap g -> isWhitespace c = false -> c <> 0%N ->
-  is_ident_char c = false -> c <> 46%N -> kont (rta (g ++ c :: X) K).
+Lemma kont_gap_char {ge} g c X K : wgap g -> isWhitespace c = false -> c <> 0%N ->
+  is_ident_char c = false -> c <> 46%N -> kont ge (rta (g ++ c :: X) K).
 Proof.
   intros Gg W Z N1 N2.
   destruct (gap_split g [c] X K c Gg eq_refl W Z) as (g' & E & _ & _ & E0 & E1 & Hc).
@@ -1866,9 +1883,9 @@ Proof.
   change (40%N :: g2 ++ body2 ++ gc ++ [41%N]) with ([40%N] ++ g2 ++ body2 ++ gc ++ [41%N]) in Hl.
   destruct (P_punct0_c T_LPAREN [40%N] gs _ K l type_text_lparen ltac:(pfree) Tg Hl)
     as (t1 & l1 & L1 & T1 & I1 & N1 & R1 & C1).
-  assert (KK : kont (rta (gc ++ [41%N]) K)).
-  { apply kont_gap_char; [exact Ggc|reflexivity|discriminate|reflexivity|discriminate]. }
-  destruct (LxE_gap g2 body2 e _ c (gc ++ [41%N]) K l1 Lx2 Gg2 Hd2 Oe KK R1)
+  assert (KK : forall ge0, kont ge0 (rta (gc ++ [41%N]) K)).
+  { intro ge0. apply kont_gap_char; [exact Ggc|reflexivity|discriminate|reflexivity|discriminate]. }
+  destruct (LxE_gap g2 body2 e _ c (gc ++ [41%N]) K l1 Lx2 Gg2 Hd2 Oe (KK _) R1)
     as (e0 & ts0 & l2 & L2 & R2 & M0 & S0 & tq & tsq & _ & _ & _ & X0).
   rewrite <- (app_nil_r [41%N]) in R2.
   destruct (P_punct_c T_RPAREN [41%N] gc [] K l2 type_text_rparen ltac:(pfree) Ggc R2)
@@ -1940,7 +1957,7 @@ Proof.
   { rewrite <- (app_nil_r body2). apply (pbnd_gap (b ++ g) (t_lit t) g2 body2 [] K cr Gg2 Hd2 Or). exact Gn2. }
   destruct (P_punct0_c (t_type t) (t_lit t) gs (g2 ++ body2) K l TT PB Tg Hl) as (t' & l1 & L1 & Ty1 & Li1 & Nl1 & R1 & C1).
   rewrite <- (app_nil_r body2) in R1.
-  destruct (LxE_gap g2 body2 r _ cr [] K l1 Lx2 Gg2 Hd2 Or HK R1) as (eR & tsR & l2 & L2 & R2 & MR & SR & tq & tsq & _ & _ & _ & XR).
+  destruct (LxE_gap g2 body2 r _ cr [] K l1 Lx2 Gg2 Hd2 Or (kont_sub _ _ _ HK eq_refl) R1) as (eR & tsR & l2 & L2 & R2 & MR & SR & tq & tsq & _ & _ & _ & XR).
   exists (EUnary t' (t_lit t) eR), ([t'] ++ tsR), l2.
   split; [eapply lexes_app; eassumption|]. split; [exact R2|]. split; [|split].
   - intro R. cbn [m_expr app]. rewrite Ty1, Tys, Li1, str_eqb_refl. cbn [negb orb].
@@ -2001,7 +2018,7 @@ Definition PEx (e : expr) : Prop := exists le, PE e le.
 Definition sepx (es : list expr) : list wop := sep_map [WRune 44%N; WSpace] (fun a => write_expr a ++ []) es.
 
 Definition LxL (b : str) (pd : list N) (lv : Z) (body : str) (es : list expr) : Prop :=
-  forall K, kont K -> forall l, l_rest l = rta body K ->
+  forall K, kont ENil K -> forall l, l_rest l = rta body K ->
     exists es' ts l', lexes l ts l' /\ l_rest l' = K /\
       (forall R, m_exprs m_expr es' (ts ++ R) = Some R) /\ map shape_expr es' = map shape_expr es /\
       nb (bnd_exprs es') = nb (bnd_exprs es) /\
@@ -2011,7 +2028,7 @@ Definition PL (ops : list wop) (es : list expr) : Prop :=
   forall b pd lv mp, 0 <= lv -> pend_ok pd -> exists body,
     prun (ps b pd lv mp) ops = ps (b ++ body) (match es with [] => pd | _ => [] end) lv mp /\ LxL b pd lv body es.
 
-Lemma kont_comma X K : kont (rta (44%N :: X) K).
+Lemma kont_comma {g} X K : kont g (rta (44%N :: X) K).
 Proof. rewrite rta_cons_nb by discriminate. apply kont_cons; [reflexivity|discriminate]. Qed.
 
 Lemma PL_sep es : Forall PEx es ->
@@ -2026,7 +2043,7 @@ Proof.
     + exists (g ++ body). split.
       { rewrite sep_map_one. cbv beta. rewrite app_nil_r. exact W. }
       intros K HK l Hl. rewrite <- (app_nil_r body), app_assoc in Hl. rewrite <- app_assoc in Hl.
-      destruct (LxE_gap g body x _ cx [] K l Lx Gg Hd Ox HK Hl) as (e' & ts & l' & L & R & M & S & tq & tsq & _ & _ & _ & Xq).
+      destruct (LxE_gap g body x _ cx [] K l Lx Gg Hd Ox (kont_sub _ _ _ HK eq_refl) Hl) as (e' & ts & l' & L & R & M & S & tq & tsq & _ & _ & _ & Xq).
       exists [e'], ts, l'. repeat split; try assumption; [cbn [map]; rewrite S; reflexivity| |].
       * rewrite !bnd_exprs_cons. cbn [bnd_exprs flat_map]. rewrite !app_nil_r. apply Xq.
       * intros St mp2. unfold sepx. rewrite sep_map_one. cbv beta. rewrite app_nil_r.
@@ -2055,9 +2072,9 @@ Proof.
         fold (sepx (e2 :: es2')). rewrite (W3 (ST_sp lv)). pfeq.
 Qed.
 
-Lemma kont_rparen' K : kont (rta [41%N] K).
+Lemma kont_rparen' {g} K : kont g (rta [41%N] K).
 Proof. rewrite rta_cons_nb by discriminate. apply kont_cons; [reflexivity|discriminate]. Qed.
-Lemma kont_rbracket' K : kont (rta [93%N] K).
+Lemma kont_rbracket' {g} K : kont g (rta [93%N] K).
 Proof. rewrite rta_cons_nb by discriminate. apply kont_cons; [reflexivity|discriminate]. Qed.
 
 Lemma P_call t f args lf : t_type t = T_LPAREN -> t_lit t = [40%N] -> NLF (t_comments t) ->
@@ -2080,9 +2097,9 @@ Proof.
   split; [exact Gg|]. split; [exact Gn|]. split; [exact Gl|].
   split; [apply hd_app_ost; assumption|].
   intros K HK gs l Tg Hl. rewrite rta_app in Hl.
-  assert (KK : kont (rta (gp ++ 40%N :: body2 ++ [41%N]) K)).
-  { apply kont_gap_char; [exact Ggp|reflexivity|discriminate|reflexivity|discriminate]. }
-  destruct (Lx _ KK gs l Tg Hl) as (eF & tsF & l1 & L1 & R1 & MF & SF & t0 & ts0 & E0 & Ty0 & Nl0 & X0).
+  assert (KK : forall ge0, kont ge0 (rta (gp ++ 40%N :: body2 ++ [41%N]) K)).
+  { intro ge0. apply kont_gap_char; [exact Ggp|reflexivity|discriminate|reflexivity|discriminate]. }
+  destruct (Lx _ (KK _) gs l Tg Hl) as (eF & tsF & l1 & L1 & R1 & MF & SF & t0 & ts0 & E0 & Ty0 & Nl0 & X0).
   change (gp ++ 40%N :: body2 ++ [41%N]) with (gp ++ [40%N] ++ body2 ++ [41%N]) in R1.
   destruct (P_punct_c T_LPAREN [40%N] gp _ K l1 type_text_lparen ltac:(pfree) Ggp R1)
     as (t1 & l2 & L2 & Ty1 & Li1 & _ & R2 & Cm1).
@@ -2124,9 +2141,9 @@ Proof.
   split; [exact Gg|]. split; [exact Gn|]. split; [exact Gl|].
   split; [apply hd_app_ost; assumption|].
   intros K HK gs l Tg Hl. rewrite rta_app in Hl.
-  assert (KK : kont (rta (gp ++ 91%N :: g2 ++ body2 ++ [93%N]) K)).
-  { apply kont_gap_char; [exact Ggp|reflexivity|discriminate|reflexivity|discriminate]. }
-  destruct (Lx _ KK gs l Tg Hl) as (eO & tsO & l1 & L1 & R1 & MO & SO & t0 & ts0 & E0 & Ty0 & Nl0 & X0).
+  assert (KK : forall ge0, kont ge0 (rta (gp ++ 91%N :: g2 ++ body2 ++ [93%N]) K)).
+  { intro ge0. apply kont_gap_char; [exact Ggp|reflexivity|discriminate|reflexivity|discriminate]. }
+  destruct (Lx _ (KK _) gs l Tg Hl) as (eO & tsO & l1 & L1 & R1 & MO & SO & t0 & ts0 & E0 & Ty0 & Nl0 & X0).
   change (gp ++ 91%N :: g2 ++ body2 ++ [93%N]) with (gp ++ [91%N] ++ g2 ++ body2 ++ [93%N]) in R1.
   destruct (P_punct_c T_LBRACKET [91%N] gp _ K l1 type_text_lbracket ltac:(pfree) Ggp R1)
     as (t1 & l2 & L2 & Ty1 & Li1 & _ & R2 & Cm1).
@@ -2143,7 +2160,7 @@ Proof.
   - unfold shape_expr. cbn [tmap_expr]. change (tmap_expr norm_tok) with shape_expr. rewrite SO, SP. f_equal. apply norm_eq; congruence.
   - exists t0, (ts0 ++ [t1] ++ tsP ++ [t2]). subst tsO. repeat split; try assumption; [apply X0|apply X0| |].
     { rewrite !bnd_member, !nb_app. f_equal; [apply X0|apply XP]. }
-    cbn [write_expr]. rewrite !app_nil_r. apply WX_ext; [apply X0|]. intro mp2.
+    cbn [write_expr negb andb app]. rewrite !app_nil_r. apply WX_ext; [apply X0|]. intro mp2.
     rewrite prun_lead, Cm1. unfold gp. rewrite (GF_G [] lv _ pend_ok_nil Hcs (ST_nil lv)). fold gp.
     rewrite !(PrettyWr.prun_cons indent), pt_rune, fl_nil. cbn [app]. rewrite (PrettyWr.prun_app indent).
     wx_sub XP (@nil N) (Gf2 (ST_nil lv)).
@@ -2151,27 +2168,23 @@ Proof.
 Qed.
 
 
-Lemma kont_dot gp gi v K : wgap gp -> wgap gi -> isLetter (hd 0%N v) = true ->
-  kont (rta (gp ++ 46%N :: gi ++ v) K).
+Lemma kont_dot {ge} gp gi v K : wgap gp -> wgap gi -> isLetter (hd 0%N v) = true ->
+  (gp = [] -> dot_ok ge = true) -> kont ge (rta (gp ++ 46%N :: gi ++ v) K).
 Proof.
-  intros Gp Gi HL.
+  intros Gp Gi HL Hdot.
   destruct (gap_split gp [46%N] (gi ++ v) K 46%N Gp eq_refl eq_refl ltac:(discriminate)) as (g' & E & _ & _ & E0 & E1 & _).
   change (gp ++ 46%N :: gi ++ v) with (gp ++ [46%N] ++ gi ++ v). rewrite E.
   destruct gp as [|x g0].
-  - rewrite (E0 eq_refl). cbn [app]. rewrite rta_cons_nb by discriminate. cbn [rta].
-    split; cbn [hd tl]; [reflexivity|]. intros _.
-    rewrite <- (app_nil_r v).
-    destruct (hd_rta_gap gi v [] K _ Gi eq_refl (letter_sst _ HL)) as [[_ W]|[_ ->]].
-    + unfold isWhitespace in W. unfold isDigit. lia.
-    + unfold isLetter in HL. unfold isDigit. lia.
+  - rewrite (E0 eq_refl). cbn [app]. rewrite rta_cons_nb by discriminate.
+    split; cbn [hd]; [reflexivity|]. intros _. apply Hdot. reflexivity.
   - destruct (E1 ltac:(discriminate)) as (w & r & -> & Hw). apply kont_ws. exact Hw.
 Qed.
 
 Lemma P_member_dot t o i lo : t_type t = T_DOT -> t_lit t = [46%N] -> NLF (t_comments t) ->
-  ident_lexical i = true -> NLF (t_comments (id_tok i)) ->
+  ident_lexical i = true -> NLF (t_comments (id_tok i)) -> obj_ok o = true ->
   PE o lo -> PE (EMember t o (EIdent i) false) lo.
 Proof.
-  intros Ty Li Hcs Hl3 Hci (co & Oo & Jo).
+  intros Ty Li Hcs Hl3 Hci Hob (co & Oo & Jo).
   unfold ident_lexical in Hl3. apply andb_true_iff in Hl3 as [Hi H3]. apply andb_true_iff in Hi as [H1 H2].
   apply Z.eqb_eq in H1. apply str_eqb_spec in H2.
   destruct (lex1_word _ _ [] H3 eq_refl ltac:(discriminate) ltac:(discriminate) eq_refl) as (HL & _).
@@ -2179,17 +2192,24 @@ Proof.
   cbn [write_expr first_type]. unfold write_ident. rewrite !app_nil_r.
   intros b pd lv mp Hlv Hpd.
   destruct (Jo b pd lv mp Hlv Hpd) as (g & body & W & Gg & Gn & Gl & Hd & Lx).
-  set (gp := G [] lv (t_comments t)).
-  assert (Ggp : wgap gp) by (apply G_gap; [exact indent_blank|exact pend_ok_nil|exact Hcs]).
+  (* the blank that keeps a decimal integer literal and the dot apart is part of the gap *)
+  set (bl := if is_decimal_int o then [32%N] else @nil N).
+  set (gp0 := G [] lv (t_comments t)).
+  set (gp := bl ++ gp0).
+  assert (Ggp : wgap gp).
+  { apply wgap_app; [unfold bl; destruct (is_decimal_int o); [apply wgap_allws; reflexivity|apply wgap_nil]|].
+    apply G_gap; [exact indent_blank|exact pend_ok_nil|exact Hcs]. }
   set (gi := G [] lv (t_comments (id_tok i))).
   assert (Ggi : wgap gi) by (apply G_gap; [exact indent_blank|exact pend_ok_nil|exact Hci]).
   exists g, (body ++ gp ++ 46%N :: gi ++ id_value i). split.
-  { rewrite prun_app, W. psimp. fold gp. fold gi. cbn [app].
-    f_equal. rewrite <- ?app_assoc. cbn [app]. rewrite <- ?app_assoc. reflexivity. }
+  { rewrite prun_app, W. unfold gp, gp0, bl. destruct (is_decimal_int o); cbn [negb andb app]; psimp; fold gi; cbn [app];
+    f_equal; rewrite <- ?app_assoc; cbn [app]; rewrite <- ?app_assoc; reflexivity. }
   split; [exact Gg|]. split; [exact Gn|]. split; [exact Gl|].
   split; [apply hd_app_ost; assumption|].
   intros K HK gs l Tg Hl. rewrite rta_app in Hl.
-  destruct (Lx _ (kont_dot gp gi (id_value i) K Ggp Ggi HL) gs l Tg Hl)
+  assert (Hdot : gp = [] -> dot_ok o = true).
+  { unfold gp, bl, dot_ok. rewrite Hob. destruct (is_decimal_int o); [discriminate|reflexivity]. }
+  destruct (Lx _ (kont_dot gp gi (id_value i) K Ggp Ggi HL Hdot) gs l Tg Hl)
     as (eO & tsO & l1 & L1 & R1 & MO & SO & t0 & ts0 & E0 & Ty0 & Nl0 & X0).
   change (gp ++ 46%N :: gi ++ id_value i) with (gp ++ [46%N] ++ gi ++ id_value i) in R1.
   destruct (P_punct_c T_DOT [46%N] gp _ K l1 type_text_dot ltac:(pfree) Ggp R1)
@@ -2208,12 +2228,20 @@ Proof.
     rewrite (norm_eq t1 t), (norm_eq t2 (id_tok i)) by congruence. reflexivity.
   - exists t0, (ts0 ++ [t1] ++ [t2]). subst tsO. repeat split; try assumption; [apply X0|apply X0| |].
     { rewrite !bnd_member, !nb_app. f_equal. apply X0. }
-    cbn [write_expr]. unfold write_ident. cbn [id_tok id_value]. rewrite !app_nil_r. apply WX_ext; [apply X0|]. intro mp2.
-    rewrite prun_lead, Cm1. unfold gp. rewrite (GF_G [] lv _ pend_ok_nil Hcs (ST_nil lv)). fold gp.
+    cbn [write_expr]. unfold write_ident. cbn [id_tok id_value negb andb]. rewrite !app_nil_r. apply WX_ext; [apply X0|]. intro mp2.
+    rewrite (is_decimal_int_shape _ _ SO).
+    assert (Cm1' : t_comments t1 = tcm gp0).
+    { rewrite Cm1. unfold gp, bl. destruct (is_decimal_int o); [apply tcm_sp|reflexivity]. }
+    assert (Wb : forall B, prun (ps B [] lv mp2) (if is_decimal_int o then [WRune 32%N] else []) = ps (B ++ bl) [] lv mp2).
+    { intro B. unfold bl. destruct (is_decimal_int o).
+      - rewrite prun_cons_ps, pt_rune, fl_nil, prun_nil. reflexivity.
+      - rewrite prun_nil, app_nil_r. reflexivity. }
+    rewrite (PrettyWr.prun_app indent), Wb.
+    rewrite prun_lead, Cm1'. unfold gp0. rewrite (GF_G [] lv _ pend_ok_nil Hcs (ST_nil lv)). fold gp0.
     rewrite !(PrettyWr.prun_cons indent), pt_rune, fl_nil. cbn [app].
     rewrite <- !(PrettyWr.prun_cons indent), prun_lead_named, Cm2. unfold gi.
     rewrite (GF_G [] lv _ pend_ok_nil Hci (ST_nil lv)). fold gi.
-    rewrite prun_cons_ps, pt_string, fl_nil, prun_nil. pfeq.
+    rewrite prun_cons_ps, pt_string, fl_nil, prun_nil. unfold gp. pfeq.
 Qed.
 
 Lemma P_array lb es rb : punct lb T_LBRACKET = true -> punct rb T_RBRACKET = true ->
@@ -2243,9 +2271,9 @@ Proof.
   destruct (P_punct0_c T_LBRACKET [91%N] gs _ K l type_text_lbracket ltac:(pfree) Tg Hl)
     as (t1 & l2 & L2 & T1 & I1 & N1 & R2 & C1).
   rewrite rta_app in R2.
-  assert (KK : kont (rta (gc ++ [93%N]) K)).
-  { apply kont_gap_char; [exact Ggc|reflexivity|discriminate|reflexivity|discriminate]. }
-  destruct (Lx2 _ KK l2 R2) as (es' & tsA & l3 & L3 & R3 & MA & SA & XA & WA).
+  assert (KK : forall ge0, kont ge0 (rta (gc ++ [93%N]) K)).
+  { intro ge0. apply kont_gap_char; [exact Ggc|reflexivity|discriminate|reflexivity|discriminate]. }
+  destruct (Lx2 _ (KK _) l2 R2) as (es' & tsA & l3 & L3 & R3 & MA & SA & XA & WA).
   rewrite <- (app_nil_r [93%N]) in R3.
   destruct (P_punct_c T_RBRACKET [93%N] gc [] K l3 type_text_rbracket ltac:(pfree) Ggc R3)
     as (t2 & l4 & L4 & T2 & I2 & _ & R4 & Cm2).
@@ -2270,7 +2298,7 @@ Qed.
 Definition seppr (gl : list (expr * expr)) : list wop := sep_map [WRune 44%N; WSpace] prop_ops gl.
 
 Definition LxPR (b : str) (pd : list N) (lv : Z) (body : str) (gl : list (expr * expr)) : Prop :=
-  forall K, kont K -> forall l, l_rest l = rta body K ->
+  forall K, kont ENil K -> forall l, l_rest l = rta body K ->
     exists ps' ts l', lexes l ts l' /\ l_rest l' = K /\
       (forall R, m_props m_expr ps' (ts ++ R) = Some R) /\ map shp ps' = map shp gl /\
       nb (bnd_props ps') = nb (bnd_props gl) /\
@@ -2280,7 +2308,7 @@ Definition PPR (ops : list wop) (gl : list (expr * expr)) : Prop :=
   forall b pd lv mp, 0 <= lv -> pend_ok pd -> exists body,
     prun (ps b pd lv mp) ops = ps (b ++ body) (match gl with [] => pd | _ => [] end) lv mp /\ LxPR b pd lv body gl.
 
-Lemma kont_colon X K : kont (rta (58%N :: X) K).
+Lemma kont_colon {g} X K : kont g (rta (58%N :: X) K).
 Proof. rewrite rta_cons_nb by discriminate. apply kont_cons; [reflexivity|discriminate]. Qed.
 
 Lemma PPR_sep gl : Forall (fun kv => key_ok (fst kv) = true /\ PEx (fst kv) /\ PEx (snd kv)) gl ->
@@ -2293,7 +2321,7 @@ Proof.
   - cbn [fst snd] in *.
     destruct (Jk b pd lv mp Hlv Hpd) as (g & body & W & Gg & _ & (_ & _ & Gfk) & Hd & Lx).
     destruct (Jv ((b ++ g ++ body) ++ [58%N]) [32%N] lv mp Hlv pend_ok_sp) as (g2 & body2 & W2 & Gg2 & _ & (_ & _ & Gfv) & Hd2 & Lx2).
-    assert (ONE : forall X K, kont (rta X K) -> forall l, l_rest l = rta (g ++ body ++ 58%N :: g2 ++ body2 ++ X) K ->
+    assert (ONE : forall X K, kont ENil (rta X K) -> forall l, l_rest l = rta (g ++ body ++ 58%N :: g2 ++ body2 ++ X) K ->
               exists k' v' ts l', lexes l ts l' /\ l_rest l' = rta X K /\ key_ok k' = true /\
                 (forall R, exists R1, m_expr k' (ts ++ R) = Some R1 /\
                    exists tc R2, eat T_COLON R1 = Some (tc, R2) /\ m_expr v' R2 = Some R) /\
@@ -2305,7 +2333,7 @@ Proof.
       destruct (LxE_gap g body k _ ck (58%N :: g2 ++ body2 ++ X) K l Lx Gg Hd Ok (kont_colon _ _) Hl)
         as (k' & tsk & l1 & L1 & R1 & Mk & Sk & tq & tsq & _ & _ & _ & Xk).
       destruct (P_colon [] _ K l1 wgap_nil R1) as (tc & l2 & L2 & Tc & R2).
-      destruct (LxE_gap g2 body2 v _ cv X K l2 Lx2 Gg2 Hd2 Ov HK R2) as (v' & tsv & l3 & L3 & R3 & Mv & Sv & tq2 & tsq2 & _ & _ & _ & Xv).
+      destruct (LxE_gap g2 body2 v _ cv X K l2 Lx2 Gg2 Hd2 Ov (kont_sub _ _ _ HK eq_refl) R2) as (v' & tsv & l3 & L3 & R3 & Mv & Sv & tq2 & tsq2 & _ & _ & _ & Xv).
       exists k', v', (tsk ++ [tc] ++ tsv), l3.
       split; [eapply lexes_app; [exact L1|eapply lexes_app; eassumption]|]. split; [exact R3|].
       split; [rewrite (key_ok_shape _ _ Sk); exact Kk|]. split; [|split; [exact Sk|split; [exact Sv|split; [apply Xk|split; [apply Xv|]]]]].
@@ -2382,9 +2410,9 @@ Proof.
   destruct (P_punct0_c T_LBRACE [123%N] gs _ K l type_text_lbrace ltac:(pfree) Tg Hl)
     as (t1 & l2 & L2 & T1 & I1 & N1 & R2 & C1).
   rewrite rta_app in R2.
-  assert (KK : kont (rta (gc ++ [125%N]) K)).
-  { apply kont_gap_char; [exact Ggc|reflexivity|discriminate|reflexivity|discriminate]. }
-  destruct (Lx2 _ KK l2 R2) as (ps' & tsA & l3 & L3 & R3 & MA & SA & XA & WA).
+  assert (KK : forall ge0, kont ge0 (rta (gc ++ [125%N]) K)).
+  { intro ge0. apply kont_gap_char; [exact Ggc|reflexivity|discriminate|reflexivity|discriminate]. }
+  destruct (Lx2 _ (KK _) l2 R2) as (ps' & tsA & l3 & L3 & R3 & MA & SA & XA & WA).
   rewrite <- (app_nil_r [125%N]) in R3.
   destruct (P_punct_c T_RBRACE [125%N] gc [] K l3 type_text_rbrace ltac:(pfree) Ggc R3)
     as (t2 & l4 & L4 & T2 & I2 & _ & R4 & Cm2).
@@ -2464,7 +2492,7 @@ Lemma let_ops_eq t name v : let_ops t name v = WComments (t_comments t) :: let_t
 Proof. reflexivity. Qed.
 
 Definition LxLet (b : str) (lv : Z) (g0 body : str) (t : token) (name : ident) (v : expr) : Prop :=
-  forall K, kont K -> forall gs l, trv gs -> l_rest l = gs ++ rta body K ->
+  forall K, kont ENil K -> forall gs l, trv gs -> l_rest l = gs ++ rta body K ->
     exists t1 n' v' ts l', lexes l (t1 :: id_tok n' :: ts) l' /\ l_rest l' = K /\
       t_type t1 = T_LET /\ norm_tok t1 = norm_tok t /\ t_nl t1 = has_lf gs /\ t_comments t1 = tcm gs /\
       (forall R, m_ident n' (id_tok n' :: R) = Some R) /\ tmap_ident norm_tok n' = tmap_ident norm_tok name /\
@@ -2536,7 +2564,7 @@ Proof.
     destruct (P_punct T_ASSIGN [61%N] [32%N] (g2 ++ body2) K l2 type_text_assign PB wgap_sp R2)
       as (t3 & l3 & L3 & Ty3 & _ & _ & R3).
     rewrite <- (app_nil_r body2) in R3.
-    destruct (LxE_gap g2 body2 v _ cv [] K l3 Lx Gg2 Hd2 Ov HK R3) as (v' & tsv & l4 & L4 & R4 & Mv & Sv & tq & tsq & _ & _ & _ & Xv).
+    destruct (LxE_gap g2 body2 v _ cv [] K l3 Lx Gg2 Hd2 Ov (kont_sub _ _ _ HK eq_refl) R3) as (v' & tsv & l4 & L4 & R4 & Mv & Sv & tq & tsq & _ & _ & _ & Xv).
     exists t1, (mkident t2 (id_value name)), v', (t3 :: tsv), l4. cbn [id_tok].
     split; [exact (lexes_app _ _ _ _ _ L1 (lexes_app _ _ _ _ _ L2 (lexes_app _ _ _ _ _ L3 L4)))|].
     split; [exact R4|]. split; [exact Ty1|].
@@ -2623,7 +2651,7 @@ Proof.
   rewrite E in Hl. rewrite <- C'. exact (Lx (rta X K) g' l T' Hl).
 Qed.
 
-Lemma kont_semi' X K : kont (rta (59%N :: X) K).
+Lemma kont_semi' {g} X K : kont g (rta (59%N :: X) K).
 Proof. rewrite rta_cons_nb by discriminate. apply kont_cons; [reflexivity|discriminate]. Qed.
 
 Lemma XS_intro {b lv g0 g body} s' s t0 cm : first_tok_stmt s' = Some t0 -> t_comments t0 = cm ->
@@ -3333,7 +3361,7 @@ Qed.
 (* ---------- for ---------- *)
 
 Definition LxOpt (b : str) (pd : list N) (lv : Z) (txt : str) (e : expr) : Prop :=
-  forall K, kont K -> forall l, l_rest l = rta txt K ->
+  forall K, kont ENil K -> forall l, l_rest l = rta txt K ->
     exists e' ts l', lexes l ts l' /\ l_rest l' = K /\
       (forall R, (if is_enil e' then Some (ts ++ R) else m_expr e' (ts ++ R)) = Some R) /\
       shape_expr e' = shape_expr e /\ nb (bnd_expr e') = nb (bnd_expr e) /\
@@ -3352,7 +3380,7 @@ Proof.
   - destruct (J eq_refl) as (c & Oc & Je). destruct (Je b pd lv mp Hlv Hpd) as (g & body & W & Gg & _ & (_ & _ & Gfe) & Hd & Lx).
     exists (g ++ body). split; [cbn [negb]; rewrite app_nil_r; exact W|].
     intros K HK l Hl. rewrite <- (app_nil_r body) in Hl.
-    destruct (LxE_gap g body e _ c [] K l Lx Gg Hd Oc HK Hl) as (e' & ts & l' & L & R & M & S & tq & tsq & _ & _ & _ & Xe).
+    destruct (LxE_gap g body e _ c [] K l Lx Gg Hd Oc (kont_sub _ _ _ HK eq_refl) Hl) as (e' & ts & l' & L & R & M & S & tq & tsq & _ & _ & _ & Xe).
     exists e', ts, l'. split; [exact L|]. split; [exact R|]. split; [|split; [exact S|split; [apply Xe|]]].
     + intro R0. rewrite (is_enil_shape _ _ S), Ee. apply M.
     + intros St mp2. unfold opt_ops. rewrite (is_enil_shape _ _ S), Ee. cbn [negb]. rewrite app_nil_r.
@@ -3403,14 +3431,14 @@ Proof.
   destruct (Lxi _ (kont_semi' _ K) l2 R2) as (i' & tsi & l3 & L3 & R3 & Mi & Si & Xi & Wi').
   destruct (P_semi [] _ K l3 wgap_nil R3) as (s1 & l4 & L4 & Ts1 & R4).
   rewrite rta_app in R4.
-  assert (K2 : kont (rta (spn c ++ 59%N :: tu ++ spn u ++ 41%N :: gb ++ tb) K)).
-  { apply kont_gap_char; [apply spn_gap|reflexivity|discriminate|reflexivity|discriminate]. }
-  destruct (Lxc _ K2 l4 R4) as (c' & tsc & l5 & L5 & R5 & Mc & Sc & Xc & Wc').
+  assert (K2 : forall ge0, kont ge0 (rta (spn c ++ 59%N :: tu ++ spn u ++ 41%N :: gb ++ tb) K)).
+  { intro ge0. apply kont_gap_char; [apply spn_gap|reflexivity|discriminate|reflexivity|discriminate]. }
+  destruct (Lxc _ (K2 _) l4 R4) as (c' & tsc & l5 & L5 & R5 & Mc & Sc & Xc & Wc').
   destruct (P_semi (spn c) _ K l5 (spn_gap c) R5) as (s2 & l6 & L6 & Ts2 & R6).
   rewrite rta_app in R6.
-  assert (K3 : kont (rta (spn u ++ 41%N :: gb ++ tb) K)).
-  { apply kont_gap_char; [apply spn_gap|reflexivity|discriminate|reflexivity|discriminate]. }
-  destruct (Lxu _ K3 l6 R6) as (u' & tsu & l7 & L7 & R7 & Mu & Su & Xu & Wu').
+  assert (K3 : forall ge0, kont ge0 (rta (spn u ++ 41%N :: gb ++ tb) K)).
+  { intro ge0. apply kont_gap_char; [apply spn_gap|reflexivity|discriminate|reflexivity|discriminate]. }
+  destruct (Lxu _ (K3 _) l6 R6) as (u' & tsu & l7 & L7 & R7 & Mu & Su & Xu & Wu').
   change (spn u ++ 41%N :: gb ++ tb) with (spn u ++ [41%N] ++ gb ++ tb) in R7.
   destruct (P_punct T_RPAREN [41%N] (spn u) _ K l7 type_text_rparen ltac:(pfree) (spn_gap u) R7)
     as (tr & l8 & L8 & Tr & _ & _ & R8).
@@ -3821,7 +3849,7 @@ Section Step.
       cbn [wfx wf_expr] in Hw.
       destruct (m_expr e1 ts) as [r1|] eqn:E1; [|discriminate H].
       pose proof (m_expr_TP _ _ _ E1 F) as F1.
-      apply andb_true_iff in Hw as [Hw W2]. apply andb_true_iff in Hw as [_ W1].
+      apply andb_true_iff in Hw as [Hw W2]. apply andb_true_iff in Hw as [Wlv W1].
       pose proof (IHe_wf e1 ltac:(lia) _ _ E1 W1 F) as Jo.
       destruct computed.
       + destruct (t_type t =? T_LBRACKET) eqn:C1; cbn [negb] in H; [|discriminate H]. apply Z.eqb_eq in C1.
@@ -3837,7 +3865,8 @@ Section Step.
         destruct e2; try discriminate H.
         destruct (m_ident_TP _ _ _ H F2) as [[Hi Hci] _].
         apply (P_member_dot indent indent_blank t e1 i (lead e1));
-          [exact C1|exact (TL_text _ _ Tt ltac:(rewrite C1; reflexivity))|exact Ct|exact Hi|exact Hci|exact Jo].
+          [exact C1|exact (TL_text _ _ Tt ltac:(rewrite C1; reflexivity))|exact Ct|exact Hi|exact Hci| |exact Jo].
+        apply obj_ok_level. exact Wlv.
     - (* EAssign *)
       cbn [wfx wf_expr] in Hw.
       destruct (t_type t =? T_ASSIGN) eqn:C1; cbn [negb] in H; [|discriminate H]. apply Z.eqb_eq in C1.
